@@ -175,6 +175,15 @@ pub fn generate(seed: u64, tier: &str, sink: &mut Sink) {
                 std::env::set_var(VARS[j], v);
             }
         }
+        // the eight variables decide, nothing else in the environment does (seed C11-seed13: HTTP_PROXY ignored
+        // when REQUEST_METHOD is set)
+        if i % 3 == 0 {
+            std::env::set_var("REQUEST_METHOD", if i % 2 == 0 { "GET" } else { "" });
+            std::env::set_var("GATEWAY_INTERFACE", "CGI/1.1");
+        } else {
+            std::env::remove_var("REQUEST_METHOD");
+            std::env::remove_var("GATEWAY_INTERFACE");
+        }
         let settings = attohttpc::ProxySettings::from_env();
         // a request / a session created now, without proxy settings of its own, works with the environment as it is
         // NOW (seed C11-seed8: settings read once per process): its settings are what from_env() gives here
